@@ -117,4 +117,19 @@ def selOk (bins : BinTable) (c s e : Nat) (ids : List Nat) : Bool :=
 def runOk (bins : BinTable) (c s e : Nat) (lo : Int) (hi : Nat) : Bool :=
   decide (0 ≤ lo) && selOk bins c s e (runIds lo.toNat hi)
 
+/-- stored pixels whose first bin is one of `ids`, in storage order -/
+def pxOfBins (ps : Pixels) (ids : List Nat) : Pixels := ps.filter fun p => ids.contains p.i
+
+/-- the property for the pixel-table fetch: the rows of the pixel table whose first bin is selected —
+all overlapping bins for a non-empty range; nothing, or the rows of one bin containing the position,
+for an empty range -/
+def pxSelOk (bins : BinTable) (ps : Pixels) (c s e : Nat) (rows : Pixels) : Bool :=
+  if s < e then rows == pxOfBins ps (overlapping bins c s e)
+  else rows == [] || (containing bins c s).any fun k => rows == pxOfBins ps [k]
+
+/-- `Cooler.offset(region)`: "bin ID containing the left end" — the first overlapping bin of a
+non-empty range (an empty range has no left-end bin the property fixes) -/
+def offsetOk (bins : BinTable) (c s e : Nat) (o : Int) : Bool :=
+  if s < e then decide (0 ≤ o) && ((overlapping bins c s e).head? == some o.toNat) else true
+
 end Cooler
